@@ -12,6 +12,7 @@ import TealerModel.Props.Common
 import TealerModel.Lemmas.Asserted
 import TealerModel.Props.Tie
 import TealerModel.Lemmas.EvalRun
+import TealerModel.Lemmas.BlockConstraint
 namespace Tealer.C01
 
 /-- a context that admits a fresh address in RekeyTo is not "validated" by rekey-to -/
@@ -193,10 +194,89 @@ theorem C01_asserted_of_run {D V : Type} [DecidableEq D] {A : Analysis D} {γ : 
         ∀ n p, p < k → (blockIns[p]!).op.pushes = 1 →
           (EvalRun.truthy (valOf (p, 0)) = true → γ (getAsserted A ic (constructAst blockIns) key n p).1 v) ∧
           (EvalRun.truthy (valOf (p, 0)) = false → γ (getAsserted A ic (constructAst blockIns) key n p).2 v) := by
-  obtain ⟨valOf, hout, _, hev⟩ := EvalRun.eval_realized prog e blockIns pc0 st k hrun
+  obtain ⟨valOf, hout, _, _, hev⟩ := EvalRun.eval_realized prog e blockIns pc0 st k hrun
   refine ⟨valOf, hout, ?_⟩
   intro ic key v huniv hs n p hp hpush
   exact Asserted.getAsserted_sound L ic key v huniv hs n p 0 _ (hev p hp hpush)
+
+/-- THE BLOCK-LEVEL CONSTRAINT ADMITS WHAT A RUN THROUGH THE BLOCK APPROVES.  For a straight run of the concrete machine
+    through all instructions of a block (one that ends in a branch, a call or falls through: every `assert` passed), the
+    constraint `_block_level_constraints` computes for any key admits the governed value — for every domain that
+    over-approximates and every leaf matcher sound for the actual leaf truths (`valOf` = the values really pushed). -/
+theorem C01_block_constraint_of_run {D V : Type} [DecidableEq D] {A : Analysis D} {γ : D → V → Prop}
+    (L : Flow.GammaLaws A γ) (prog : List Ins) (e : Avm.Env) (b : FBlock) (pc0 : Nat) (st : Nat → Avm.State)
+    (hrun : OperandValues.BlockRun prog e b.ins pc0 b.ins.length st) :
+    ∃ valOf : Nat × Nat → Avm.Val,
+      (∀ j, j < b.ins.length → ∀ i, i < (b.ins[j]!).op.pushes →
+        (st (j + 1)).stack[(st j).stack.length - (b.ins[j]!).op.pops + i]? = some (valOf (j, i))) ∧
+      ∀ (ic : Option (List Nat)) (key : Key) (v : V), γ (A.univ key.base) v →
+        (∀ p, (EvalRun.truthy (valOf (p, 0)) = true → γ (A.single ic (constructAst b.ins) key p).1 v) ∧
+              (EvalRun.truthy (valOf (p, 0)) = false → γ (A.single ic (constructAst b.ins) key p).2 v)) →
+        γ (blockConstraint A ic b key) v :=
+  BlockConstraint.whole_block_sound L prog e b pc0 st hrun
+
+/-- THE EDGE CONSTRAINT ADMITS THE VALUE ON THE EDGE THE RUN TAKES.  For a straight run through all instructions of a block:
+    if `succ` is recorded as the fall-through successor only when the final `bz` / `bnz` fell through, and as the jump
+    successor only when it jumped (what `C04_edge_order` / `C04_execution_walk` say of real traces), then the constraint
+    `_path_level_constraints` stores on the edge to `succ` admits the governed value. -/
+theorem C01_edge_constraint_of_run {D V : Type} [DecidableEq D] {A : Analysis D} {γ : D → V → Prop}
+    (L : Flow.GammaLaws A γ) (prog : List Ins) (e : Avm.Env) (b : FBlock) (pc0 : Nat) (st : Nat → Avm.State)
+    (hrun : OperandValues.BlockRun prog e b.ins pc0 b.ins.length st) (hne : b.ins ≠ []) :
+    ∃ (valOf : Nat × Nat → Avm.Val),
+      ∀ (ic : Option (List Nat)) (key : Key) (v : V) (succ : Nat), γ (A.univ key.base) v →
+        (∀ p, (EvalRun.truthy (valOf (p, 0)) = true → γ (A.single ic (constructAst b.ins) key p).1 v) ∧
+              (EvalRun.truthy (valOf (p, 0)) = false → γ (A.single ic (constructAst b.ins) key p).2 v)) →
+        (∀ l r n, (b.ins[b.ins.length - 1]!).op = .bz l → (st (b.ins.length - 1)).stack = r ++ [.int n] →
+          ((BlockConstraint.edgesOf b).1 = some succ → n ≠ 0) ∧
+          ((BlockConstraint.edgesOf b).1 ≠ some succ → (BlockConstraint.edgesOf b).2 = some succ → n = 0)) →
+        (∀ l r n, (b.ins[b.ins.length - 1]!).op = .bnz l → (st (b.ins.length - 1)).stack = r ++ [.int n] →
+          ((BlockConstraint.edgesOf b).1 = some succ → n = 0) ∧
+          ((BlockConstraint.edgesOf b).1 ≠ some succ → (BlockConstraint.edgesOf b).2 = some succ → n ≠ 0)) →
+        γ (pathConstraint A ic b succ key) v :=
+  BlockConstraint.pathConstraint_sound L prog e b pc0 st hrun hne
+
+/-- THE BLOCK THAT APPROVES.  A straight run through all instructions of a block but the last, whose last instruction is a
+    `return` on which the machine approves: the block-level constraint admits the governed value (the returned value not
+    being the literal the tool reads as `return 0`).  With `C01_block_constraint_of_run` and `C01_edge_constraint_of_run`
+    this covers every block and edge constraint along an approving execution, block by block. -/
+theorem C01_accepting_block_of_run {D V : Type} [DecidableEq D] {A : Analysis D} {γ : D → V → Prop}
+    (L : Flow.GammaLaws A γ) (prog : List Ins) (e : Avm.Env) (b : FBlock) (pc0 : Nat) (st : Nat → Avm.State)
+    (hne : b.ins ≠ []) (hrun : OperandValues.BlockRun prog e b.ins pc0 (b.ins.length - 1) st)
+    (hlast : (b.ins[b.ins.length - 1]!).op = .ret)
+    (hcode : prog[pc0 + (b.ins.length - 1)]? = some (b.ins[b.ins.length - 1]!))
+    (hacc : Avm.step prog e (st (b.ins.length - 1)) = .accept) :
+    ∃ valOf : Nat × Nat → Avm.Val,
+      ∀ (ic : Option (List Nat)) (key : Key) (v : V), γ (A.univ key.base) v →
+        (∀ p, (EvalRun.truthy (valOf (p, 0)) = true → γ (A.single ic (constructAst b.ins) key p).1 v) ∧
+              (EvalRun.truthy (valOf (p, 0)) = false → γ (A.single ic (constructAst b.ins) key p).2 v)) →
+        (∀ q, condArg (constructAst b.ins) (b.ins.length - 1) = some q →
+          intPush ic ((constructAst b.ins).opOf q) ≠ some (some (.lit 0))) →
+        γ (blockConstraint A ic b key) v :=
+  BlockConstraint.accepting_block_sound L prog e b pc0 st hne hrun hlast hcode hacc
+
+/-- the premises of the run-based theorems are satisfiable: a concrete straight run (fee 500 through `txn Fee; int 1000; <;
+    assert`) is a `BlockRun` of four steps -/
+def sampleBlock : List Ins :=
+  [⟨1, .txn "Fee", ""⟩, ⟨2, .int (.lit 1000), ""⟩, ⟨3, .cmp .lt, ""⟩, ⟨4, .assert, ""⟩, ⟨5, .int (.lit 1), ""⟩, ⟨6, .ret, ""⟩]
+def sampleEnv : Avm.Env := { size := 1, self := 0, txns := [⟨[("Fee", .int 500)]⟩] }
+def sampleStates : Nat → Avm.State
+  | 0 => {}
+  | j + 1 => match Avm.step sampleBlock sampleEnv (sampleStates j) with | .next s => s | _ => sampleStates j
+
+example : OperandValues.BlockRun sampleBlock sampleEnv sampleBlock 0 4 sampleStates := by
+  refine ⟨by decide, ?_, ?_, ?_, ?_⟩
+  · intro j hj
+    have : j = 0 ∨ j = 1 ∨ j = 2 ∨ j = 3 := by omega
+    rcases this with rfl | rfl | rfl | rfl <;> rfl
+  · intro j hj
+    have : j = 0 ∨ j = 1 ∨ j = 2 ∨ j = 3 ∨ j = 4 := by omega
+    rcases this with rfl | rfl | rfl | rfl | rfl <;> rfl
+  · intro j hj
+    have : j = 0 ∨ j = 1 ∨ j = 2 ∨ j = 3 := by omega
+    rcases this with rfl | rfl | rfl | rfl <;> rfl
+  · intro j hj n a b
+    have : j = 0 ∨ j = 1 ∨ j = 2 ∨ j = 3 := by omega
+    rcases this with rfl | rfl | rfl | rfl <;> simp [sampleBlock]
 
 example : checksField .feeCheck { maxFee := 1000 } = true ∧ checksField .feeCheck {} = false := by decide
 
